@@ -8,6 +8,7 @@ CONSTANTS
   MaxWrite = 2
   Validates = {FALSE, TRUE}
   SetClass = "all"
+  UpdEnabled = {TRUE}
   Deviations = {"EmptyStrAsNone", "InfTextAsFloat", "UuidTextAsId", "NoneMemberAsText", "IsValueFlipOnNone", "FileFormRejectsWorkspace", "GroupPropagation"}
 VIEW vw
 INVARIANT Explained
